@@ -494,12 +494,14 @@ def g_cones(ctx, rng, i):
     v = gen.coords(rng, (3,), 4, "int").astype(float) if i % 3 else np.zeros(3)
     r = float(gen.pick(rng, [1, 2, 0.5, 3, 1.5]))
     scale = float(gen.pick(rng, [1, 2, 0.5]))
+    # vertex, base centre and direction in arbitrary homogeneous representatives (as other library calls return them)
+    l1, l2 = (float(gen.pick(rng, [1, 1, 2, -1, -3, 0.5])) for _ in range(2))
     try:
-        g.Cone(g.Point(*v), g.Point(*(v + d * scale)), r)
+        g.Cone(g.Point(np.append(v, 1) * l1), g.Point(np.append(v + d * scale, 1) * l2), r)
     except Exception as e:
         ctx.judge("cone", False, [v, d, r], what=f"Cone raised {type(e).__name__}: {e}", op="Cone", feat={"exc": type(e).__name__})
     try:
-        g.Cylinder(g.Point(*v), g.Point(*d), r)
+        g.Cylinder(g.Point(np.append(v, 1) * l2), g.Point(np.append(d, 1) * l1), r)
     except Exception as e:
         ctx.judge("cylinder", False, [v, d, r], what=f"Cylinder raised {type(e).__name__}: {e}", op="Cylinder", feat={"exc": type(e).__name__})
 
